@@ -167,9 +167,9 @@ def build_cases(ctx, t, info):
         pinned = [c for c in grid if c["kind"] == "nr" or (c["name"] in ("openat", "execve", "rename", "openat2") and c["kind"] in ("path", "path2", "how"))]
         rest = [c for c in grid if c not in pinned]
         ctx.rng.shuffle(rest)
-        grid = pinned + rest[:max(0, 170 - len(pinned))]
+        grid = pinned + rest[:max(0, 150 - len(pinned))]
         ctx.rng.shuffle(races)
-        races = races[:40]
+        races = races[:30]
         esc = esc[:1]
     else:
         esc = esc[:3]
@@ -177,7 +177,7 @@ def build_cases(ctx, t, info):
     for c in grid:
         cases.append({"raw": render(c), "dec": {}, "filter": "trace", "other": "allow",
                       "class": {"kind": c["kind"], "name": c["name"], "hostile": hostile_of(c)}})
-    reps = ctx.pick(3, 12)
+    reps = ctx.pick(2, 12)
     for c in races:
         for delay in ({}, {"tracer.firststop": 2, "tracer.seccomp": 2}):
             cases.append({"script": c["script"], "dec": c["dec"], "filter": "kill", "other": "allow", "reps": reps, "delay": delay,
